@@ -185,18 +185,21 @@ class Interp:
             self.raise_(exc, node, op, operand)
 
     # ------------------------------------------------------------------ calls
-    def call_func(self, f, args, kwargs=None, node=None, self_av=None):
+    def call_func(self, f, args, kwargs=None, node=None, self_av=None, present=frozenset(), sib=None):
         """Analyse package function f on abstract arguments. Returns AV (for generators: a 'gen' of yielded values)."""
         kwargs = kwargs or {}
         if len(self.stack) >= MAX_DEPTH or self.stack.count(f) >= 2:
             self.unmodelled.append("recursion/inlining bound at %s" % f.qual)
             return AV(["opaque"])
-        key = (f.qual, tuple(a.describe() for a in args), tuple(sorted((k, v.describe()) for k, v in kwargs.items())))
+        key = (f.qual, tuple(a.describe() for a in args), tuple(sorted((k, v.describe()) for k, v in kwargs.items())), tuple(sorted(present, key=repr)),
+               tuple(sorted(((k, (v[0].describe() if v[0] is not None else None, v[1])) for k, v in (sib or {}).items()), key=repr)))
         if key in self.memo:
             ret, effects = self.memo[key]
             self.collectors[-1].extend(effects)
             return ret
         st = State()
+        st.present |= set(present)
+        st.sib.update(sib or {})
         params = f.params
         a = f.node.args
         defaults = dict(zip([x.arg for x in (a.posonlyargs + a.args)][-len(a.defaults):], a.defaults)) if a.defaults else {}
@@ -717,12 +720,21 @@ class Interp:
         if isinstance(test, ast.Call):
             f = test.func
             # validator.is_type(x, "T")
-            if isinstance(f, ast.Attribute) and f.attr == "is_type" and len(test.args) == 2 and isinstance(test.args[1], ast.Constant):
+            tname = None
+            if isinstance(f, ast.Attribute) and f.attr == "is_type" and len(test.args) == 2:
+                if isinstance(test.args[1], ast.Constant):
+                    tname = test.args[1].value
+                else:
+                    # a type name passed down as a parameter (helper(validator, instance, "array", ...)): one known string
+                    tv = self.peek(test.args[1], s)
+                    if tv is not None and tv.kinds == frozenset(["str"]) and tv.strs is not None and len(tv.strs) == 1:
+                        tname = next(iter(tv.strs))
+            if tname is not None:
                 recv = self.eval_quiet(f.value, s)
                 if is_obj(recv, "Validator"):
                     cur = self.peek(test.args[0], s)
                     if cur is not None:
-                        new = self.refine_by_type(cur, test.args[1].value, truth)
+                        new = self.refine_by_type(cur, tname, truth)
                         if new.empty:
                             return None
                         self.poke(test.args[0], new, s)
